@@ -125,6 +125,8 @@ func directedCells() []cell {
 			tmplMain("\tvar x "+T+" = 5\n\tx = x + x\n\t__F__Printf(\"%v\\n\", x)\n"), false)})
 	}
 	cs = append(cs, findingProbes()...)
+	cs = append(cs, rangeReturnCells()...)
+	cs = append(cs, deferArgCells()...)
 	return cs
 }
 
